@@ -268,13 +268,13 @@ pub fn run(args: &Args, sink: &mut Sink) {
     // tier `miri`: the same generators under the Miri interpreter (undefined behaviour in the library's `unsafe` blocks,
     // double frees, use after free), far fewer and shorter histories
     let miri = args.tier == "miri";
-    let rounds = if miri { 40 } else if thorough { 12000 } else { 1500 };
+    let rounds = if miri { 40 } else if thorough { 80000 } else { 1500 };
     for k in 0..rounds {
         let mut r = rng.fork();
         let steps = if miri { 5 + r.below(15) } else { 5 + r.below(40) };
         obs_case(sink, &format!("O{k}"), k % 2 == 0, (k / 2) % 2 == 0, &mut r, steps);
     }
-    let rounds = if miri { 60 } else if thorough { 6000 } else { 800 };
+    let rounds = if miri { 60 } else if thorough { 40000 } else { 800 };
     for k in 0..rounds {
         let mut r = rng.fork();
         let steps = if miri { 5 + r.below(25) } else { 5 + r.below(50) };
